@@ -937,6 +937,9 @@ func init() {
 		clamp: func(b []byte) []byte {
 			return reExp.ReplaceAllFunc(b, func(m []byte) []byte {
 				if jsonMaxExponent(m) > 3000000 {
+					if bytes.Contains(m, []byte("-")) {
+						return []byte("e-300000") // a negative exponent costs time, not memory: see the duration clause
+					}
 					return []byte("e3000000")
 				}
 				return m
